@@ -71,8 +71,12 @@ Stored(b) == DOMAIN objs[b]
 (* property's "ordinary" names)                                             *)
 Usable(b, n) == \A m \in Stored(b) : ~Conflict(n, m)
 
-NotExist == [ok |-> FALSE]
+(* results: a read gives NotExist or Found(data); `res` wraps the result of   *)
+(* the last operation in one record shape (kind, ok, data, names)            *)
+NotExist == [ok |-> FALSE, data |-> ""]
 Found(d) == [ok |-> TRUE, data |-> d]
+Res(kind, ok, data, names) == [kind |-> kind, ok |-> ok, data |-> data, names |-> names]
+Op(op, b, n, d, p) == [op |-> op, b |-> b, name |-> n, data |-> d, prefix |-> p]
 
 (* ---- pure result functions (also used by the trace module) -------------- *)
 ReadResult(o, b, n) == IF n \in DOMAIN o[b] THEN Found(o[b][n]) ELSE NotExist
@@ -80,23 +84,23 @@ ListResult(o, b, p) == {n \in DOMAIN o[b] : IsPrefix(p, NameStr(n))}
 WriteEffect(o, b, n, d) == [o EXCEPT ![b] = Put(@, n, d)]
 
 Init == /\ objs = [b \in Buckets |-> <<>>]
-        /\ res = "init"
-        /\ last = [op |-> "init"]
+        /\ res = Res("init", TRUE, "", {})
+        /\ last = Op("init", "", <<>>, "", <<>>)
         /\ hist = <<>>
 
 Write(b, n, d) == /\ Usable(b, n)
                   /\ objs' = WriteEffect(objs, b, n, d)
-                  /\ res' = "ok"
-                  /\ last' = [op |-> "write", b |-> b, name |-> n, data |-> d]
+                  /\ res' = Res("write", TRUE, "", {})
+                  /\ last' = Op("write", b, n, d, <<>>)
                   /\ hist' = Append(hist, [b |-> b, name |-> n, data |-> d])
 
 Read(b, n) == /\ Usable(b, n)
-              /\ res' = ReadResult(objs, b, n)
-              /\ last' = [op |-> "read", b |-> b, name |-> n]
+              /\ res' = Res("read", ReadResult(objs, b, n).ok, ReadResult(objs, b, n).data, {})
+              /\ last' = Op("read", b, n, "", <<>>)
               /\ UNCHANGED <<objs, hist>>
 
-List(b, p) == /\ res' = ListResult(objs, b, p)
-              /\ last' = [op |-> "list", b |-> b, prefix |-> p]
+List(b, p) == /\ res' = Res("list", TRUE, "", ListResult(objs, b, p))
+              /\ last' = Op("list", b, <<>>, "", p)
               /\ UNCHANGED <<objs, hist>>
 
 Next == \/ \E b \in Buckets, n \in Names, d \in Datas : Write(b, n, d)
@@ -123,10 +127,10 @@ EverWritten(b) == {hist[i].name : i \in {j \in 1..Len(hist) : hist[j].b = b}}
 
 ResultFromHistory ==
     CASE last.op = "read" ->
-            res = (IF WritesTo(last.b, last.name) = {} THEN NotExist
-                   ELSE Found(LatestWrite(last.b, last.name).data))
+            IF WritesTo(last.b, last.name) = {} THEN ~res.ok
+            ELSE res.ok /\ res.data = LatestWrite(last.b, last.name).data
       [] last.op = "list" ->
-            res = {n \in EverWritten(last.b) : IsPrefix(last.prefix, NameStr(n))}
+            res.names = {n \in EverWritten(last.b) : IsPrefix(last.prefix, NameStr(n))}
       [] OTHER -> TRUE
 
 (* what is on disk: one file per stored object, at <root>/<bucket>/<name>,   *)
